@@ -5,7 +5,7 @@ CONSTANTS
  Poll = 2
  Ticks = TRUE
  Defect = "none"
- MaxTime = 2
+ MaxTime = 3
  MaxAtt = 2
  ShutTOs <- TONever
  PCancel = {}
@@ -13,6 +13,6 @@ CONSTANTS
  DL1 <- DL2
  DL2s <- DLN
  W3 <- WT
- Res <- R2
-PROPERTIES AllCallsEnd
+ Res <- R3
+PROPERTIES CallsEnd ShutdownReturns AllEndAfterShutdown
 CHECK_DEADLOCK FALSE
